@@ -5,7 +5,7 @@
    silently; `Print Assumptions` lists the axioms it depends on (none are declared by this development). *)
 From Coq Require Import NArith List Bool String.
 From Octo Require Import Base.Bytes Crypto.Prims Lib.Framed Lib.Canon Lib.WsFramed Model.Address Model.NonceGen Model.SsChunk Model.SsTcp
-  Proofs.NonceFacts Proofs.SsChunkRoundtrip Proofs.SsChunkCanon Proofs.SsChunkTamper Proofs.SsTcpSafety Proofs.SsTcpRoundtrip Proofs.WsFramedFacts.
+  Proofs.NonceFacts Proofs.SsChunkRoundtrip Proofs.SsChunkCanon Proofs.SsChunkTamper Proofs.SsTcpSafety Proofs.SsTcpRoundtrip Proofs.WsFramedFacts Proofs.VmessTamper Proofs.SsUdpTamper.
 Import ListNotations.
 Set Printing Width 200.
 
@@ -43,6 +43,181 @@ Definition C05_failure_is_prefix := @ss_body_segmentation_independent.
 Definition C05_nonvacuous_forge_free := @TamperExamples.ideal_forge_free.
 Definition C05_nonvacuous_prefix := @TamperExamples.ideal_released_is_prefix.
 
+(* non-vacuity: the restricted laws (seal_len, open_len, open_seal on what the honest sender sealed) hold for the ideal AEAD of the concrete run *)
+Definition C05_ss_nonvacuous_laws := @TamperExamples.ideal_laws.
+(* non-vacuity: tampered_unit_rejected_neq with ALL its hypotheses discharged (laws_on + forge_free + nonce discipline hold together) *)
+Definition C05_ss_nonvacuous_tamper := @TamperExamples.ideal_tampered_unit_rejected.
+(* VMess body stream, every option mask and both ciphers: WHATEVER bytes arrive and however they are segmented, under forge-freeness of the body key what is released is a prefix of the concatenation of the sender payloads; the run ends Waiting or Failed EAead *)
+Definition C05_vmess_released_is_prefix := @vm_released_is_prefix.
+(* VMess: after a failure nothing more is released, whatever follows *)
+Definition C05_vmess_nothing_after_failure := @vm_nothing_after_failure.
+(* VMess: honest wire up to chunk j, then ANY bytes whose head is not an intact chunk j: exactly the payload of the first j chunks is released and nothing after the point of tampering *)
+Definition C05_vmess_tampered_chunk_not_released := @vm_tampered_chunk_not_released.
+(* VMess: ... and as soon as the tampered chunk is complete by the decoder own reckoning the run fails, under every segmentation *)
+Definition C05_vmess_tampered_chunk_rejected := @vm_tampered_chunk_rejected.
+(* VMess, plain reading: the honest size field followed by any other bytes in place of the sealed payload is rejected *)
+Definition C05_vmess_tampered_ciphertext_rejected := @vm_tampered_ciphertext_rejected.
+(* VMess AuthenticatedLength: 18 bytes that are not an honest size unit for the counter nonce of chunk j fail at once *)
+Definition C05_vmess_tampered_auth_size_rejected := @vm_tampered_auth_size_rejected.
+(* VMess (witness, by protocol design): the random padding of a chunk is NOT authenticated -- any bytes of the same length are accepted, with the same released bytes and decoder state *)
+Definition C05_vmess_REFUTED_padding_authenticated := @vm_padding_tamper_accepted.
+(* VMess non-vacuity: the untampered stream is released completely under every segmentation *)
+Definition C05_vmess_honest_run_released_all := @vm_honest_run_released_all.
+(* VMess: ideal AEAD over both body keys of a session + the two keys differ => forge-freeness per direction *)
+Definition C05_vmess_direction_separation := @vm_direction_separation.
+(* VMess reflection and splicing: the request decoder and the response decoder of a session, fed with ANY bytes (the opposite direction reflected back, spliced chunks), release a prefix of what the sender of THEIR direction wrote *)
+Definition C05_vmess_cross_direction := @vm_cross_direction_released_is_prefix.
+(* VMess: a unit sealed under the other direction key opens under this direction key only if byte-identical to a ciphertext this direction sender produced *)
+Definition C05_vmess_opposite_unit_rejected := @vm_opposite_unit_rejected.
+(* VMess: a decoder under whose body key nothing was sealed (other session, other direction) releases nothing *)
+Definition C05_vmess_reflection_rejected := @vm_reflection_rejected.
+(* KNOWN FINDING F-12b seen from C05 (witness): with AuthenticatedLength the SIZE FIELD of the opposite direction IS accepted when reflected; the sealed payload behind it is not (vmess_cross_direction) *)
+Definition C05_vmess_KNOWN_auth_len_size_reflected := @vm_auth_len_size_reflected_accepted.
+(* (recorded) why the 65536-chunk bound is a premise: the 16-bit counter of the protocol wraps, a replayed chunk opens again 65536 chunks later *)
+Definition C05_vmess_counter_wrap_replay := @vm_replay_after_wrap_opens.
+(* VMess packet mode: a datagram is released only if it is exactly the plaintext of the honest unit at the decoder position *)
+Definition C05_vmess_packet_accept_is_honest := @vm_packet_accept_is_honest.
+(* VMess packet mode: a tampered datagram chunk is dropped entirely -- Err EAead or (incomplete) no item, never a datagram *)
+Definition C05_vmess_packet_tampered_dropped := @vm_packet_tampered_dropped.
+(* VMess packet mode: a complete tampered chunk is Err EAead *)
+Definition C05_vmess_packet_tampered_rejected := @vm_packet_tampered_rejected.
+(* VMess packet mode on what encode_packet_v wrote: honest size field, any other bytes in place of the sealed datagram => Err EAead *)
+Definition C05_vmess_packet_ciphertext_tampered_rejected := @vm_packet_ciphertext_tampered_rejected.
+(* VMess request header: if for no registered user both sealed parts are honest units under the keys derived with the auth id and connection nonce of src, the server never leaves SInit (no target, nothing released) *)
+Definition C05_vmess_header_tampered_refused := @vm_header_tampered_refused.
+(* ... the outcome is an error or waiting *)
+Definition C05_vmess_header_tampered_no_target := @vm_header_tampered_no_target.
+(* VMess request header, plain reading for one honest request: another auth id, or any other changed byte of the sealed header, is refused *)
+Definition C05_vmess_header_tampered_refused_neq := @vm_header_tampered_refused_neq.
+(* non-vacuity: forge-freeness holds for an ideal AEAD on a concrete two-write session (all options) *)
+Definition C05_vmess_nonvacuous_forge_free := @VmessTamperExamples.ideal_forge_free_req.
+(* non-vacuity: the restricted laws hold for the same ideal AEAD *)
+Definition C05_vmess_nonvacuous_laws := @VmessTamperExamples.ideal_laws_req.
+(* non-vacuity: vm_released_is_prefix with all hypotheses discharged *)
+Definition C05_vmess_nonvacuous_prefix := @VmessTamperExamples.ideal_released_is_prefix.
+(* non-vacuity: vm_tampered_ciphertext_rejected with all hypotheses discharged *)
+Definition C05_vmess_nonvacuous_tamper := @VmessTamperExamples.ideal_tampered_ciphertext_rejected.
+(* non-vacuity: vm_tampered_auth_size_rejected with all hypotheses discharged *)
+Definition C05_vmess_nonvacuous_auth_size := @VmessTamperExamples.ideal_tampered_auth_size_rejected.
+(* non-vacuity: both directions, key separation checked on the concrete keys *)
+Definition C05_vmess_nonvacuous_cross := @VmessTamperExamples.ideal_cross_direction.
+(* non-vacuity: packet mode *)
+Definition C05_vmess_nonvacuous_packet := @VmessTamperExamples.ideal_packet_rejected.
+(* non-vacuity: request header *)
+Definition C05_vmess_nonvacuous_header := @VmessTamperExamples.ideal_header_tampered_refused.
+(* SS UDP legacy: whatever ssu_decode accepts is exactly an honestly sealed unit under the key and nonce named by the datagram salt *)
+Definition C05_ssudp_accepted_legacy_is_sealed := @accepted_legacy_is_sealed.
+(* SS UDP 2022 AES: ... under the session key and nonce named by the decrypted header block (and identity header) *)
+Definition C05_ssudp_accepted_aes_is_sealed := @accepted_aes_is_sealed.
+(* SS UDP 2022 XChaCha: ... under the PSK and the nonce carried by the datagram *)
+Definition C05_ssudp_accepted_xc_is_sealed := @accepted_xc_is_sealed.
+(* SS UDP legacy, general form: no honest unit under the named key and nonce with this ciphertext => not accepted *)
+Definition C05_ssudp_tampered_legacy_rejected := @tampered_legacy_rejected.
+(* SS UDP legacy: honest salt kept, AEAD part altered in any way => not accepted *)
+Definition C05_ssudp_tampered_legacy_rejected_neq := @tampered_legacy_rejected_neq.
+(* SS UDP 2022 AES, general form *)
+Definition C05_ssudp_tampered_aes_rejected := @tampered_aes_rejected.
+(* SS UDP 2022 AES: honest header (and identity header) kept, AEAD part altered => not accepted *)
+Definition C05_ssudp_tampered_aes_rejected_neq := @tampered_aes_rejected_neq.
+(* SS UDP 2022 XChaCha, general form *)
+Definition C05_ssudp_tampered_xc_rejected := @tampered_xc_rejected.
+(* SS UDP 2022 XChaCha: honest nonce kept, AEAD part altered => not accepted *)
+Definition C05_ssudp_tampered_xc_rejected_neq := @tampered_xc_rejected_neq.
+(* SS UDP: a datagram that is not accepted is an Err item: the client session is untouched and the rest of the run is as if it had not arrived *)
+Definition C05_ssudp_unaccepted_datagram_dropped := @unaccepted_datagram_dropped_client.
+(* SS UDP: ... the run after a refused datagram *)
+Definition C05_ssudp_refused_datagram_invisible := @refused_datagram_invisible_client.
+(* SS UDP server: a refused datagram yields no item (no client event for the association task) *)
+Definition C05_ssudp_refused_datagram_no_item_server := @refused_datagram_no_item_server.
+(* SS UDP 2022 AES: an accepted unit carries the type byte of the OPPOSITE side and a fresh timestamp *)
+Definition C05_ssudp_accepted_aes_unit_typed := @accepted_aes_unit_typed.
+(* SS UDP 2022 XChaCha: the same *)
+Definition C05_ssudp_accepted_xc_unit_typed := @accepted_xc_unit_typed.
+(* SS UDP 2022 AES reflection: a unit with the decoder own type byte is refused even if it opens under the very same key and nonce *)
+Definition C05_ssudp_own_type_unit_rejected_aes := @own_type_unit_rejected_aes.
+(* SS UDP 2022 XChaCha reflection: the same *)
+Definition C05_ssudp_own_type_unit_rejected_xc := @own_type_unit_rejected_xc.
+(* SS UDP 2022 AES: what a client encodes is refused by a same-key client decoder (all payloads, paddings, addresses) *)
+Definition C05_ssudp_reflection_refused_aes_client := @reflection_refused_aes_client.
+(* SS UDP 2022 AES: what a server encodes is refused by a same-key server decoder *)
+Definition C05_ssudp_reflection_refused_aes_server := @reflection_refused_aes_server.
+(* SS UDP 2022 XChaCha: client to client *)
+Definition C05_ssudp_reflection_refused_xc_client := @reflection_refused_xc_client.
+(* SS UDP 2022 XChaCha: server to server *)
+Definition C05_ssudp_reflection_refused_xc_server := @reflection_refused_xc_server.
+(* (documentation) legacy Shadowsocks UDP has no direction separation: outside the claim of C05, which covers reflection for Shadowsocks 2022 and VMess *)
+Definition C05_ssudp_NOTE_legacy_reflection_accepted := @legacy_reflection_accepted.
+(* non-vacuity: forge-freeness holds for an ideal AEAD over a concrete table (legacy, AES, AES with identity header, XChaCha, server reply) *)
+Definition C05_ssudp_nonvacuous_forge_free := @UdpTamperExamples.ideal_forge_free.
+(* non-vacuity: legacy *)
+Definition C05_ssudp_nonvacuous_tampered_legacy := @UdpTamperExamples.ideal_tampered_legacy.
+(* non-vacuity: AES *)
+Definition C05_ssudp_nonvacuous_tampered_aes := @UdpTamperExamples.ideal_tampered_aes.
+(* non-vacuity: AES with identity header *)
+Definition C05_ssudp_nonvacuous_tampered_multiuser := @UdpTamperExamples.ideal_tampered_multiuser.
+(* non-vacuity: XChaCha *)
+Definition C05_ssudp_nonvacuous_tampered_xc := @UdpTamperExamples.ideal_tampered_xc.
+(* computed: every single-byte flip of four honest datagrams is refused by a tag-checking toy AEAD *)
+Definition C05_ssudp_every_flip_refused := @UdpTamperExamples.every_flip_refused.
+
+Check @C05_ss_nonvacuous_laws.
+Check @C05_ss_nonvacuous_tamper.
+Check @C05_vmess_released_is_prefix.
+Check @C05_vmess_nothing_after_failure.
+Check @C05_vmess_tampered_chunk_not_released.
+Check @C05_vmess_tampered_chunk_rejected.
+Check @C05_vmess_tampered_ciphertext_rejected.
+Check @C05_vmess_tampered_auth_size_rejected.
+Check @C05_vmess_REFUTED_padding_authenticated.
+Check @C05_vmess_honest_run_released_all.
+Check @C05_vmess_direction_separation.
+Check @C05_vmess_cross_direction.
+Check @C05_vmess_opposite_unit_rejected.
+Check @C05_vmess_reflection_rejected.
+Check @C05_vmess_KNOWN_auth_len_size_reflected.
+Check @C05_vmess_counter_wrap_replay.
+Check @C05_vmess_packet_accept_is_honest.
+Check @C05_vmess_packet_tampered_dropped.
+Check @C05_vmess_packet_tampered_rejected.
+Check @C05_vmess_packet_ciphertext_tampered_rejected.
+Check @C05_vmess_header_tampered_refused.
+Check @C05_vmess_header_tampered_no_target.
+Check @C05_vmess_header_tampered_refused_neq.
+Check @C05_vmess_nonvacuous_forge_free.
+Check @C05_vmess_nonvacuous_laws.
+Check @C05_vmess_nonvacuous_prefix.
+Check @C05_vmess_nonvacuous_tamper.
+Check @C05_vmess_nonvacuous_auth_size.
+Check @C05_vmess_nonvacuous_cross.
+Check @C05_vmess_nonvacuous_packet.
+Check @C05_vmess_nonvacuous_header.
+Check @C05_ssudp_accepted_legacy_is_sealed.
+Check @C05_ssudp_accepted_aes_is_sealed.
+Check @C05_ssudp_accepted_xc_is_sealed.
+Check @C05_ssudp_tampered_legacy_rejected.
+Check @C05_ssudp_tampered_legacy_rejected_neq.
+Check @C05_ssudp_tampered_aes_rejected.
+Check @C05_ssudp_tampered_aes_rejected_neq.
+Check @C05_ssudp_tampered_xc_rejected.
+Check @C05_ssudp_tampered_xc_rejected_neq.
+Check @C05_ssudp_unaccepted_datagram_dropped.
+Check @C05_ssudp_refused_datagram_invisible.
+Check @C05_ssudp_refused_datagram_no_item_server.
+Check @C05_ssudp_accepted_aes_unit_typed.
+Check @C05_ssudp_accepted_xc_unit_typed.
+Check @C05_ssudp_own_type_unit_rejected_aes.
+Check @C05_ssudp_own_type_unit_rejected_xc.
+Check @C05_ssudp_reflection_refused_aes_client.
+Check @C05_ssudp_reflection_refused_aes_server.
+Check @C05_ssudp_reflection_refused_xc_client.
+Check @C05_ssudp_reflection_refused_xc_server.
+Check @C05_ssudp_NOTE_legacy_reflection_accepted.
+Check @C05_ssudp_nonvacuous_forge_free.
+Check @C05_ssudp_nonvacuous_tampered_legacy.
+Check @C05_ssudp_nonvacuous_tampered_aes.
+Check @C05_ssudp_nonvacuous_tampered_multiuser.
+Check @C05_ssudp_nonvacuous_tampered_xc.
+Check @C05_ssudp_every_flip_refused.
 Check @C05_released_is_prefix.
 Check @C05_nothing_after_failure.
 Check @C05_run_stops_after_failure.
@@ -67,3 +242,61 @@ Print Assumptions C05_wrong_echo_refused.
 Print Assumptions C05_failure_is_prefix.
 Print Assumptions C05_nonvacuous_forge_free.
 Print Assumptions C05_nonvacuous_prefix.
+Print Assumptions C05_ss_nonvacuous_laws.
+Print Assumptions C05_ss_nonvacuous_tamper.
+Print Assumptions C05_vmess_released_is_prefix.
+Print Assumptions C05_vmess_nothing_after_failure.
+Print Assumptions C05_vmess_tampered_chunk_not_released.
+Print Assumptions C05_vmess_tampered_chunk_rejected.
+Print Assumptions C05_vmess_tampered_ciphertext_rejected.
+Print Assumptions C05_vmess_tampered_auth_size_rejected.
+Print Assumptions C05_vmess_REFUTED_padding_authenticated.
+Print Assumptions C05_vmess_honest_run_released_all.
+Print Assumptions C05_vmess_direction_separation.
+Print Assumptions C05_vmess_cross_direction.
+Print Assumptions C05_vmess_opposite_unit_rejected.
+Print Assumptions C05_vmess_reflection_rejected.
+Print Assumptions C05_vmess_KNOWN_auth_len_size_reflected.
+Print Assumptions C05_vmess_counter_wrap_replay.
+Print Assumptions C05_vmess_packet_accept_is_honest.
+Print Assumptions C05_vmess_packet_tampered_dropped.
+Print Assumptions C05_vmess_packet_tampered_rejected.
+Print Assumptions C05_vmess_packet_ciphertext_tampered_rejected.
+Print Assumptions C05_vmess_header_tampered_refused.
+Print Assumptions C05_vmess_header_tampered_no_target.
+Print Assumptions C05_vmess_header_tampered_refused_neq.
+Print Assumptions C05_vmess_nonvacuous_forge_free.
+Print Assumptions C05_vmess_nonvacuous_laws.
+Print Assumptions C05_vmess_nonvacuous_prefix.
+Print Assumptions C05_vmess_nonvacuous_tamper.
+Print Assumptions C05_vmess_nonvacuous_auth_size.
+Print Assumptions C05_vmess_nonvacuous_cross.
+Print Assumptions C05_vmess_nonvacuous_packet.
+Print Assumptions C05_vmess_nonvacuous_header.
+Print Assumptions C05_ssudp_accepted_legacy_is_sealed.
+Print Assumptions C05_ssudp_accepted_aes_is_sealed.
+Print Assumptions C05_ssudp_accepted_xc_is_sealed.
+Print Assumptions C05_ssudp_tampered_legacy_rejected.
+Print Assumptions C05_ssudp_tampered_legacy_rejected_neq.
+Print Assumptions C05_ssudp_tampered_aes_rejected.
+Print Assumptions C05_ssudp_tampered_aes_rejected_neq.
+Print Assumptions C05_ssudp_tampered_xc_rejected.
+Print Assumptions C05_ssudp_tampered_xc_rejected_neq.
+Print Assumptions C05_ssudp_unaccepted_datagram_dropped.
+Print Assumptions C05_ssudp_refused_datagram_invisible.
+Print Assumptions C05_ssudp_refused_datagram_no_item_server.
+Print Assumptions C05_ssudp_accepted_aes_unit_typed.
+Print Assumptions C05_ssudp_accepted_xc_unit_typed.
+Print Assumptions C05_ssudp_own_type_unit_rejected_aes.
+Print Assumptions C05_ssudp_own_type_unit_rejected_xc.
+Print Assumptions C05_ssudp_reflection_refused_aes_client.
+Print Assumptions C05_ssudp_reflection_refused_aes_server.
+Print Assumptions C05_ssudp_reflection_refused_xc_client.
+Print Assumptions C05_ssudp_reflection_refused_xc_server.
+Print Assumptions C05_ssudp_NOTE_legacy_reflection_accepted.
+Print Assumptions C05_ssudp_nonvacuous_forge_free.
+Print Assumptions C05_ssudp_nonvacuous_tampered_legacy.
+Print Assumptions C05_ssudp_nonvacuous_tampered_aes.
+Print Assumptions C05_ssudp_nonvacuous_tampered_multiuser.
+Print Assumptions C05_ssudp_nonvacuous_tampered_xc.
+Print Assumptions C05_ssudp_every_flip_refused.
